@@ -187,6 +187,15 @@ func c15Tuples(c *Check) []c15Tuple {
 		}
 	}
 	rec(nil)
+	// elements that end in a line break (a value read back through a command substitution would lose it)
+	for _, l := range [][]string{{"a\n", "b"}, {"\n", "\n"}, {"a\n\n"}, {"x", "y\n"}, {"\n"}, {"a\n", "", "b\n"}, {" \n", "\t"}} {
+		for _, sp := range []string{"", "-", "\n"} {
+			ts = append(ts, c15Tuple{fn: "Join", strs: []string{sp}, list: l})
+		}
+	}
+	for _, pm := range [][2]string{{"a\nb", ""}, {"a\n,b\n", ","}, {"\n\n", ""}, {"a\n-\n-b", "-"}, {"x\n\ny", "\n"}, {" \n ", ""}} {
+		ts = append(ts, c15Tuple{fn: "Split", strs: []string{pm[0], pm[1]}})
+	}
 	ws := []string{"", " ", "\t", "\n", "\v", "\f", "\r", " a ", "\ta\n", "a", " a b ", "\t\n\v\f\r x \r\f\v\n\t", "x\ty", "  ", "\n\n", "a \t", "\r\na", " \tab\n ", "ab", "\va\f"}
 	for _, s := range ws {
 		ts = append(ts, c15Tuple{fn: "TrimSpace", strs: []string{s}})
